@@ -54,6 +54,47 @@ theorem C01_full_at_capacity (base : Nat) (h : History) (hn : h.NoSetSize)
   subst this
   simp [Pool.isFull, Sem.locked, hv, Cap.isZero]
 
+/-- **C01 (`is_full`, both directions).** In every pool of finite size after every history without an assignment to
+`pool_size` and without `gather_and_close`: at any point where no task sits in its cancel callback
+(`num_cancelled = 0`) and no spawner has been handed a slot it has not picked up yet (true whenever the loop is idle:
+the hand-over schedules the spawner), `is_full` is true **exactly when** `num_running` equals the pool size. The
+direction "not at capacity ⇒ not full" rests on the semaphore's no-lost-wake-up invariant (`WakeOK`, DESIGN §4.3). -/
+theorem C01_is_full_iff (base : Nat) (h : History) (hn : h.NoSetSize) (hg : ∀ x ∈ h, x.admits noGac = true)
+    (i : Nat) (c : Cfg) (p : Pool) (n : Nat)
+    (hc : ((World.init base).run h).cfgs[i]? = some c) (hp : ((World.init base).run h).pools[i]? = some p)
+    (hsz : c.size0 = .fin n) (hcb : p.cancelledR = []) (hgr : grantsL p.sem.waiters = 0) :
+    p.isFull = true ↔ p.running.length = n := by
+  have hl : p.lost = false := (strictAll base h hg i c p hc hp).1
+  refine ⟨?_, C01_full_at_capacity base h hn i c p n hc hp hsz hl⟩
+  intro hfull
+  obtain ⟨v, hv, hs⟩ := C02_idle_accounting base h hn i c p n hc hp hsz hl
+  rw [hcb, hgr] at hs
+  simp only [List.length_nil] at hs
+  rcases Nat.eq_zero_or_pos v with rfl | hpos
+  · omega
+  · exfalso
+    have hgood := goodFin base h hn i c p n hc hp hsz
+    have hnp := hgood.wk (hgood.rz rfl) v hv hpos hgr
+    have hng : ∀ w ∈ p.sem.waiters, w.st ≠ .granted := by
+      intro w hw e
+      have : 0 < grantsL p.sem.waiters := by
+        unfold grantsL; exact List.countP_pos_iff.mpr ⟨w, hw, by simp [e]⟩
+      omega
+    have hall : p.sem.waiters.any (fun w => w.st != .cancelled) = false := by
+      rw [List.any_eq_false]
+      intro w hw
+      have a := hnp w hw
+      have b := hng w hw
+      cases hst : w.st <;> simp_all
+    have hz : v ≠ 0 := by omega
+    have : p.isFull = false := by
+      unfold Pool.isFull Sem.locked
+      rw [hv, hall]
+      cases v with
+      | zero => exact absurd rfl hz
+      | succ k => rfl
+    rw [this] at hfull; cases hfull
+
 /-- size 0: nothing may ever start -/
 theorem C01_zero_starts_nothing (base : Nat) (h : History) (hn : h.NoSetSize) (i : Nat) (c : Cfg) (p : Pool)
     (hc : ((World.init base).run h).cfgs[i]? = some c) (hp : ((World.init base).run h).pools[i]? = some p)
@@ -71,5 +112,11 @@ def C01_demo : History :=
 example : (((World.init 0).run C01_demo).pools.map Pool.live) = [1] := by decide +kernel
 example : (((World.init 0).run C01_demo).pools.map Pool.isFull) = [true] := by decide +kernel
 example : ∀ x ∈ C01_demo, x.admits noSetSize = true := by decide
+example : ∀ x ∈ C01_demo, x.admits noGac = true := by decide
+/-- the hypotheses of `C01_is_full_iff` hold in that state (one running task = size 1, the second invocation waits):
+nobody in a cancel callback, no slot on its way to a spawner, a *pending* waiter in the queue -/
+example : (((World.init 0).run C01_demo).pools.map fun p =>
+    (p.cancelledR.length, grantsL p.sem.waiters, p.running.length, p.sem.waiters.length)) = [(0, 0, 1, 1)] := by
+  decide +kernel
 
 end Taskpool
